@@ -21,6 +21,7 @@ class Cond:
     bounds: str = ""  # human readable bound of this condition
     group: str = ""  # evidence grouping
     per_path_timeout: float = 60.0
+    concrete: bool = False  # contract-validation item: fn() is called once, concretely (no solver); labelled as such in evidence
 
 
 _GEN_COUNT = 0
